@@ -189,7 +189,8 @@ def _walk(ctx, fn, cfg, path, env0=None, keep=()):
                 for i_, t_ in enumerate(st.targets[0].elts):
                     d_ = dotted(t_) if isinstance(t_, (ast.Name, ast.Attribute)) else None
                     if d_:
-                        env[d_] = Term.atom(f"sub({v.key()},{i_})")
+                        from ..core.terms import elem_term as _et
+                        env[d_] = _et(v.key(), i_)
             elif isinstance(st, ast.Assign):
                 v = ev.ev(st.value)
                 for t in st.targets:
